@@ -31,9 +31,23 @@ def contiguous(v: sc.Variable) -> bool:
     return bool(np.all(b[1:] == e[:-1]))
 
 
+def event_index(v: sc.Variable) -> np.ndarray:
+    """Indices into the event buffer of the events that belong to the bins, bin by bin in C order
+    (a binned variable may be a slice of a larger one: its buffer then holds foreign events)."""
+    c = v.bins.constituents
+    b = np.asarray(c['begin'].values).ravel()
+    e = np.asarray(c['end'].values).ravel()
+    if b.size == 0:
+        return np.zeros(0, dtype=np.int64)
+    if contiguous(v):
+        return np.arange(int(b[0]), int(e[-1]), dtype=np.int64)
+    return np.concatenate([np.arange(x, y, dtype=np.int64) for x, y in zip(b, e, strict=True)]
+                          + [np.zeros(0, dtype=np.int64)])
+
+
 def event_values(v: sc.Variable) -> np.ndarray:
-    """Flat event buffer values (contiguous bins assumed)."""
-    return np.asarray(v.bins.constituents['data'].values)
+    """Values of the events that belong to the bins, bin by bin."""
+    return np.asarray(v.bins.constituents['data'].values)[event_index(v)]
 
 
 def align(op: sc.Variable, res: sc.Variable) -> np.ndarray:
